@@ -61,6 +61,7 @@ fn main() {
         "C13" => vh::props::c13::C13,
         "C14" => vh::props::c14::C14,
         "C16" => vh::props::c16::C16,
+        "C17" => vh::props::c17::C17,
         "C18" => vh::props::c18::C18,
         "C19" => vh::props::c19::C19,
         "C20" => vh::props::c20::C20,
